@@ -104,6 +104,9 @@ fn parse_header(header: &str) -> Result<Header, ParseError> {
 
     if newline != NEWLINE {
         return Err(ParseError::InvalidSuffix);
+    } else if !header.ends_with(PROTOCOL_SUFFIX) {
+        // The line feed was preceded by a space instead of a carriage return.
+        return Err(ParseError::MissingNewLine);
     }
 
     Ok(Header {
